@@ -11,6 +11,15 @@ from concurrent.futures import ThreadPoolExecutor
 PROPS = ("C01 C02 C03 C04 C05 C06 C07 C08 C09 C10 C11 C12 C13 C14 C15 C16 "
          "C18 C19 C20").split()
 jobs = int(sys.argv[1]) if len(sys.argv) > 1 else 8
+# run from a private snapshot of /verif/sa so that later edits of the rules do
+# not contaminate an evaluation in progress
+import tempfile, shutil
+SNAP = tempfile.mkdtemp(prefix="sasnap.", dir="/tmp")
+shutil.copytree("/verif/sa", f"{SNAP}/sa")
+shutil.copy("/verif/known_findings.json", SNAP)
+os.makedirs(f"{SNAP}/.cache", exist_ok=True)
+for f in os.listdir("/verif/.cache") if os.path.isdir("/verif/.cache") else []:
+    shutil.copy(f"/verif/.cache/{f}", f"{SNAP}/.cache/{f}")
 sub = sys.argv[2] if len(sys.argv) > 2 else ""
 
 
@@ -30,7 +39,7 @@ def one(sid):
         caught = []
         for p_ in PROPS:
             o = subprocess.run(["/venv/bin/python", "-m", "sa.run", p_, "--no-evidence", "--repo", wt],
-                               capture_output=True, text=True, cwd="/verif")
+                               capture_output=True, text=True, cwd=SNAP)
             for line in (o.stdout + o.stderr).splitlines():
                 m = re.match(r"^\s+(C\d+\.\S+|obs\.\S+) (.+?) @ (\S+?):", line)
                 if m:
@@ -56,3 +65,4 @@ with ThreadPoolExecutor(jobs) as ex:
     for sid, st, rules in ex.map(one, ids):
         print(sid, st, rules, flush=True)
 subprocess.run(["git", "-C", "/repo", "worktree", "prune"])
+shutil.rmtree(SNAP, ignore_errors=True)
